@@ -165,6 +165,16 @@ func Generate(r *core.Rng, id int, maxOps int, faulty bool) *History {
 				k = strconv.Itoa(int(int32(r.Uint64())) % core.Pick(r, []int{2 * pool, 1000, 1 << 30}))
 			case "i64":
 				k = strconv.FormatInt(int64(r.Uint64())%int64(core.Pick(r, []int{2 * pool, 100000, 1 << 40})), 10)
+				if len(m.keys) > 0 && r.Chance(1, 3) {
+					// same low 32 bits as an earlier key, different high bits (and the
+					// other way round): distinct keys that a 4-byte hash or compare confuses
+					base, _ := strconv.ParseInt(core.Pick(r, m.keys), 10, 64)
+					if r.Chance(1, 2) {
+						k = strconv.FormatInt(base+int64(1+r.Intn(5))<<32, 10)
+					} else {
+						k = strconv.FormatInt(base^int64(1+r.Intn(7)), 10)
+					}
+				}
 			case "str":
 				k = fmt.Sprintf("%s%d", core.Pick(r, []string{"k", "key_", "a", "Zz", "x-"}), r.Intn(10*pool))
 			default:
@@ -174,6 +184,17 @@ func Generate(r *core.Rng, id int, maxOps int, faulty bool) *History {
 				}
 				if m.ks > 2 {
 					b[m.ks-1] = byte(r.Intn(256))
+				}
+				if len(m.keys) > 0 && r.Chance(1, 3) {
+					// differs from an earlier key in exactly one byte, often beyond the
+					// 8th or 16th (a truncated compare or hash makes them alias)
+					prev, _ := hex.DecodeString(core.Pick(r, m.keys))
+					copy(b, prev)
+					pos := r.Intn(m.ks)
+					if m.ks > 8 && r.Chance(1, 2) {
+						pos = 8 + r.Intn(m.ks-8)
+					}
+					b[pos] ^= byte(1 + r.Intn(255))
 				}
 				k = hex.EncodeToString(b)
 			}
